@@ -732,3 +732,16 @@ Proof. vm_compute. reflexivity. Qed.
 
 Example ex_no_quit_hyp : forall e, In e (ex_hist ++ [EEof]) -> is_quit_event e = false.
 Proof. intros e H. repeat (destruct H as [<-|H]; [vm_compute; reflexivity|]). destruct H. Qed.
+
+(** The command handlers themselves never panic in a reachable state - also when the write
+    side is broken and the reply never reaches [w_out] (in Go a panic would still kill the
+    process).  Suggested by the audit of the theorem files. *)
+Theorem step_never_panics : forall fl st0 evs c,
+  let w := run fl (init_world st0) evs in
+  is_panic (snd (fst (step fl (w_store w) (w_sess w) c))) = false.
+Proof.
+  intros fl st0 evs c. cbn zeta. set (w := run fl (init_world st0) evs).
+  assert (Hi : inv (w_sess w)) by (apply run_inv, init_inv).
+  destruct (step fl (w_store w) (w_sess w) c) as [[s' r] st'] eqn:Es.
+  destruct (step_facts _ _ _ _ _ _ _ Es) as (_ & F2 & _). exact (F2 Hi).
+Qed.
